@@ -328,6 +328,27 @@ def _tsoft_same(nm):
     return False
 
 
+def _tsoft_single_threshold(nm):
+    """the one threshold of a restructured function, read from its (unchanged) threshold summary: (coq term, float value, source text)"""
+    import re
+    from lib import tsoft
+    for rel, q in TSOFT:
+        if q == nm:
+            ok, found, base = tsoft.same_thresholds(REPO, 'C12', rel, q, _TSOFT_STOP - {q})
+            cm = sorted({t for t in (found or []) if t.startswith('cmp ')})
+            if not ok or len(cm) != 1:
+                return None
+            m = re.fullmatch(r'cmp \w+ (?:\w+=)?(\d+)\*eps', cm[0])
+            if m:
+                k = int(m.group(1))
+                return (f"(mul O {_coq_num(k)} (eps O))", float(k) * EPS, f"{k} * _eps")
+            m = re.fullmatch(r'cmp \w+ (?:\w+=)?([0-9.eE+-]+)', cm[0])
+            if m:
+                v = float(m.group(1))
+                return (_coq_num(v), v, m.group(1))
+    return None
+
+
 def _tsoft_helpers(nm):
     from lib import tsoft
     for rel, q in TSOFT:
@@ -368,7 +389,15 @@ def tconst(ctx):
     for n in ast.walk(fns['UnitQuaternion.__init__']):
         if isinstance(n, ast.Call) and ast.unparse(n.func) == 'base.unit' and (len(n.args) != 1 or n.keywords):
             raise TConstError("UnitQuaternion.__init__ passes a tolerance to base.unit (the model uses the default)")
-    K = {field: _threshold(fns[nm], nm, _tsoft_helpers(nm) if nm in restructured else ()) for nm, field in SITES.items()}
+    K = {}
+    for nm, field in SITES.items():
+        try:
+            K[field] = _threshold(fns[nm], nm, _tsoft_helpers(nm) if nm in restructured else ())
+        except TConstError:
+            k = _tsoft_single_threshold(nm) if nm in restructured else None
+            if k is None:
+                raise
+            K[field] = k
     ctx.stats['tconst:restructured'] = restructured
     if restructured:
         ctx.notes.append("T-const: " + ", ".join(restructured) + " restructured (skeleton / callees differ from the recorded ones) with unchanged numeric "
